@@ -29,19 +29,25 @@ McLoadStacks ==
       [] Mode = "sa"   -> {<< <<p[1]>>, <<p[2]>> >> : p \in SaPairs}
                           \cup {<<Bottom, <<p[1]>>, <<p[2]>> >> : p \in SaPairs}
 
+\* SA: the prepared state also holds a BestIndividual -- none, the best rank of the universe (better than or equal
+\* to the current solution, as after an accepted worsening move), or the better of the two operands
+SaBests(st) == {NoBest, 0, Min2(Rank(st[Len(st) - 1][1]), Rank(st[Len(st)][1]))}
+McLoadActs == IF Mode = "sa" THEN UNION {{ALoad(st, b) : b \in SaBests(st)} : st \in McLoadStacks}
+              ELSE LoadActs
+
 \* DE selections return (2y+1) * |source| members: they are enabled for sources of at most 3
 \* members (a source of 4 already has 24^4 allowed results for DERand)
-McActs == IF act.op = "init" THEN LoadActs
+McActs == IF act.op = "init" THEN McLoadActs
           ELSE IF act.op = "load"
                THEN {a \in Acts : a.op \in DeOps => Len(stack[Len(stack)]) <= 3}
                ELSE {}
 
-McNext == \E a \in McActs : \E c \in Cand(a, stack, temp) : Step(a, c.r, c.s, c.t)
+McNext == \E a \in McActs : \E c \in Cand(a, stack, temp, best) : Step(a, c.r, c.s, c.t, c.b)
 McSpec == Init /\ [][McNext]_vars
 
 \* the relations are satisfiable for every enabled call (the spec never forbids everything)
 Total == act.op = "load" =>
-            \A a \in McActs : \E c \in Cand(a, stack, temp) : Rel(a, stack, temp, c.r, c.s, c.t)
+            \A a \in McActs : \E c \in Cand(a, stack, temp, best) : Rel(a, stack, temp, best, c.r, c.s, c.t, c.b)
 
 \* "mu random ones": the relation of RandomReplacement prefers no position -- for every mu,
 \* every choice of min(mu, n) positions of parents ++ offspring is an allowed result
@@ -56,8 +62,8 @@ RandomAnySubset ==
 
 \* input-space export: one line per (loaded stack, enabled call)
 ExportNext == \E a \in McActs :
-                 IF a.op = "load" THEN \E c \in Cand(a, stack, temp) : Step(a, c.r, c.s, c.t)
-                 ELSE act' = a /\ UNCHANGED <<stack, temp, res>>
+                 IF a.op = "load" THEN \E c \in Cand(a, stack, temp, best) : Step(a, c.r, c.s, c.t, c.b)
+                 ELSE act' = a /\ UNCHANGED <<stack, temp, best, res>>
 ExportSpec == Init /\ [][ExportNext]_vars
-PrintCase == act'.op = "load" \/ PrintT(<<"CASE", ToJson([stack |-> stack, act |-> act'])>>)
+PrintCase == act'.op = "load" \/ PrintT(<<"CASE", ToJson([stack |-> stack, best |-> best, act |-> act'])>>)
 =============================================================================
